@@ -139,7 +139,7 @@ func fqJoin(ls [][]byte, crlf bool) []byte {
 	return out
 }
 
-var fqKinds = []string{"no-at", "no-plus", "plus-gone", "quals-long", "quals-short", "cut1", "cut2", "cut3", "cut-mid"}
+var fqKinds = []string{"no-at", "junk-before-at", "no-plus", "plus-gone", "quals-long", "quals-short", "cut1", "cut2", "cut3", "cut-mid"}
 
 // fqCorrupt makes record j (1-based) structurally malformed; ok=false if this kind is not a corruption of this record.
 func fqCorrupt(r *rand.Rand, recs []*fastq.Fastq, j int, kind string, crlf bool) (data []byte, ok bool) {
@@ -153,6 +153,9 @@ func fqCorrupt(r *rand.Rand, recs []*fastq.Fastq, j int, kind string, crlf bool)
 			return nil, false
 		}
 		ls[b] = cp(f.Name)
+	case "junk-before-at": // the '@' is there, but not as the first byte of the line (invisible or blank bytes before it)
+		junk := []string{"\xef\xbb\xbf", " ", "\t", "\xc2\xa0", "\x00", "\xfe\xff", "\v"}[r.Intn(7)]
+		ls[b] = append([]byte(junk), ls[b]...)
 	case "no-plus":
 		ls[b+2] = []byte{}
 		if r.Intn(2) == 0 {
@@ -242,14 +245,34 @@ func fastqDrive(args []string) error {
 		for _, f := range recs {
 			want = append(want, fqProject(f))
 		}
+		// all fields of all records back to back in one array, handed out as plain sub-slices (capacity runs into the
+		// next field): a writer must not touch anything beyond len() of what it was given
+		{
+			var arena []byte
+			for _, f := range recs {
+				arena = append(append(append(arena, f.Name...), f.Sequence...), f.Quals...)
+			}
+			arena = append([]byte{}, arena...)
+			o := 0
+			for _, f := range recs {
+				if f.Name != nil {
+					f.Name = arena[o : o+len(f.Name)]
+				}
+				o += len(f.Name)
+				f.Sequence = arena[o : o+len(f.Sequence)]
+				o += len(f.Sequence)
+				f.Quals = arena[o : o+len(f.Quals)]
+				o += len(f.Quals)
+			}
+		}
 		var own []byte
 		type held struct {
 			ev fqEvent
 			bm []byte
 		}
 		var hs []held // MarshalText results are looked at only after all records were marshalled and written
-		for _, f := range recs {
-			ev := fqEvent{Sid: sid, Op: "write", Kind: "write", Name: ints(f.Name), Seq: ints(f.Sequence), Quals: ints(f.Quals),
+		for i, f := range recs {
+			ev := fqEvent{Sid: sid, Op: "write", Kind: "write", Name: want[i].Name, Seq: want[i].Seq, Quals: want[i].Quals,
 				Bytes: []int{}, Recs: []fqItem{}, Items: []fqItem{}}
 			buf := &bytes.Buffer{}
 			before := fqProject(f)
@@ -268,9 +291,15 @@ func fastqDrive(args []string) error {
 			own = append(own, buf.Bytes()...)
 			hs = append(hs, held{ev, bm})
 		}
-		for _, h := range hs {
+		for i, h := range hs {
 			h.ev.BM = ints(h.bm)
+			if !fqItemsEqual([]fqItem{fqProject(recs[i])}, []fqItem{want[i]}) {
+				h.ev.Panic = true // some write changed this record
+			}
 			tw.emit(h.ev)
+		}
+		for i := range recs { // pristine copies for everything that follows
+			recs[i] = &fastq.Fastq{Name: unints(want[i].Name), Sequence: unints(want[i].Seq), Quals: unints(want[i].Quals)}
 		}
 		emitRead := func(kind string, data []byte, j int) {
 			ev := fqEvent{Sid: sid, Op: "read", Kind: kind, Name: []int{}, Seq: []int{}, Quals: []int{}, BW: []int{}, BM: []int{},
